@@ -73,11 +73,13 @@ class Report:
                     self.prop, known[m].get("what", ""), o["rule"], o["function"], o["key"]))
         for line in sorted(set(kf_lines)):
             print(line)
-        vdir = os.path.join(EVID, "violations")
+        dry = bool(os.environ.get("VERIF_NO_EVIDENCE"))   # selftest runs against scratch copies must not touch the evidence
+        vdir = os.path.join(EVID, "violations") if not dry else os.path.join(VERIF, ".work", "selftest-violations")
         os.makedirs(vdir, exist_ok=True)
-        for f in os.listdir(vdir):
-            if f.startswith(self.prop + "-"):
-                os.remove(os.path.join(vdir, f))
+        if not dry:
+            for f in os.listdir(vdir):
+                if f.startswith(self.prop + "-"):
+                    os.remove(os.path.join(vdir, f))
         for idx, o in enumerate(viol):
             p = os.path.join(vdir, "%s-%d.json" % (self.prop, idx))
             json.dump({"property": self.prop, "rule": o["rule"], "rule_desc": self.rules[o["rule"]]["desc"],
@@ -86,7 +88,8 @@ class Report:
                        "replay": "./check %s --explain %s" % (self.prop, p)}, open(p, "w"), indent=1)
             print("%s: %s: %s: %s -- %s" % (o["site"], o["rule"], o["function"], o["key"], o["detail"]))
             print("VIOLATION property=%s replay=%s" % (self.prop, p))
-        self.write_evidence(len(viol))
+        if not dry:
+            self.write_evidence(len(viol))
         n = len(self.obl)
         print("%s: %d obligations over %d rules, %d discharged, %d known findings, %d violations (%.1fs)" % (
             self.prop, n, len(self.rules), sum(1 for o in self.obl if o["ok"]), len(fails) - len(viol), len(viol), time.time() - self.t0))
